@@ -97,6 +97,9 @@ def check_run(chk, cfg, lines, keep):
     chk.count(f"sampler:{cfg['sampler']}")
     chk.count(f"ns:{cfg['ns']}/{cfg['width']}")
     key = json.dumps(cfg)
+    if smcrun.collapsed_population(res):
+        chk.count("skipped:population_collapsed_rejected_by_library")
+        return
     if res["status"] != "done":
         chk.case(None, None)
         chk.fail("run total", case, repr(res.get("exc"))[:300], {"clause": "raise", "sampler": cfg["sampler"], "exc": type(res.get("exc")).__name__})
